@@ -12,9 +12,7 @@ PROP = {
         "as C04",
         "DDL inside the rolled-back transaction (created / dropped objects) is C15's part of this property; the catalog is static here",
     ],
-    "partial": "abort_erases at history level is proved for a session none of whose transactions commits (abort_erases_partial); the "
-               "statement for a single non-committing transaction of a session that also commits others (abort_erases_statement) is "
-               "stated, not proved. The store-level theorems (abort_erases_store, abort_erases_store_fresh) are unrestricted.",
+    "partial": "",
     "trusted": ["one history is executed from a single thread"],
 }
 
@@ -24,8 +22,11 @@ TEXT = {
             "output, a failing statement or batch leaves the state it found, dropping a session is a rollback. Tied to the code by the "
             "C03 families of engine `hist` (failing statements at every position, failing batches, rollback and drop, through the public API).",
     "design_ref": "DESIGN.md §5 C04/C03",
-    "note": "Known findings with exact attribution: rolled-back UPDATEs stay visible (pinned test), a statement failing after its first row "
-            "inside a session keeps the rows processed so far; region finding: deleting and reinserting a unique key replaces the index "
+    "note": "History-level theorems: abort_erases / abort_erases_refused (one transaction ended by ROLLBACK, a session drop, a following "
+            "begin or a REFUSED commit, of a session that may commit others before and after), abort_erases_partial (a session that "
+            "never commits), failed_statement_erases (a failing statement of a transaction that goes on and commits, a failing "
+            "autocommit statement or batch). Known findings with exact attribution: rolled-back UPDATEs stay visible (pinned test); "
+            "repaired by fix 30b3e5b: a statement failing after its first row kept the rows processed so far; region finding: deleting and reinserting a unique key replaces the index "
             "entry, so after a rollback the old row is no longer found through the index. Fixed by a fix: commit: a rolled-back DELETE "
             "left a stale mark that swallowed every later DELETE of the row.",
     "technique": "Lean 4 refinement proof + differential correspondence with the real sessions",
